@@ -457,6 +457,45 @@ func runC14(r *Run) {
 		}
 		r.check(fromSlotOrMax, "put:handle-source", r.fpos(put), "the handle given to a new entry is a recycled slot handle or the next fresh one", "put hands out a handle that is neither recycled from a slot nor fresh")
 	})
+
+	r.rule("R7", "what the cache hands to an external Storage is not its own scratch memory (E3): a storage may keep the slice, so a reused buffer would rewrite stored entries", func() {
+		n := 0
+		r.P.AllFuncs(cachePkg, func(f *ssa.Function) {
+			for _, c := range callsIn(f, false) {
+				if !c.Common.IsInvoke() || c.Common.Method.Name() != "Set" || !strings.HasSuffix(c.Common.Value.Type().String(), "fiber/v3.Storage") {
+					continue
+				}
+				n++
+				val := c.Common.Args[1]
+				okBuf, why := true, ""
+				// produced by the generated codec: its destination buffer must be nil (fresh allocation)
+				if d := dependsOn(val, func(v ssa.Value) bool {
+					cc, ok := v.(*ssa.Call)
+					return ok && strings.HasSuffix(calleeName(&cc.Call), ").MarshalMsg")
+				}); d != nil {
+					mc := d.(*ssa.Call)
+					buf := mc.Call.Args[len(mc.Call.Args)-1]
+					if !constIsNil(asConst(buf)) {
+						okBuf, why = false, "MarshalMsg appends to a caller-supplied buffer"
+					}
+				}
+				// never memory that the manager itself keeps between calls
+				if d := dependsOn(val, func(v ssa.Value) bool {
+					fv := fieldOfValue(v)
+					if fv == nil || fieldOwner(fv) != "cache.manager" {
+						return false
+					}
+					_, isSlice := fv.Type().Underlying().(*types.Slice)
+					return isSlice
+				}); d != nil {
+					okBuf, why = false, "the value is (a slice of) a field of the manager"
+				}
+				r.check(okBuf, fmt.Sprintf("%s:Storage.Set#%d:fresh-bytes", short(f.String()), n), r.pos(c.Instr), "the stored bytes are freshly allocated or the caller's own value",
+					"the bytes handed to Storage.Set are reused by the cache ("+why+"): a storage that keeps the slice (the bundled memory storage does) sees entry A's metadata overwritten when entry B is stored — a hit on A is served with B's status, headers and expiry")
+			}
+		})
+		r.atLeast("Storage.Set call sites in the cache", n, 2)
+	})
 }
 
 func handleSource(v ssa.Value, slotAddr func(ssa.Value) (*ssa.IndexAddr, bool)) bool {
